@@ -616,9 +616,13 @@ func zzRunC11(r *sim.Run) {
 			act = engine.Stop
 		}
 		pre := e.listing()
+		viewBefore := zzPublicView(sk)
 		err := sk.ActOnWorkSpace(sid, act)
 		post := e.listing()
 		rem, add := zzDiffList(pre, post)
+		if viewAfter := zzPublicView(sk); err != nil && viewAfter != viewBefore {
+			r.Fail("C11/refused-action-changed-state/"+act.String(), "%s of %s (a %s space) was refused (%v) but the spaces in use changed from [%s] to [%s]", act, sid[:8], info, err, viewBefore, viewAfter)
+		}
 		r.Event("op %s %s (state %s) -> err=%v removed=%v added=%v", act, sid[:8], info, err, zzBase(rem), zzBase(add))
 		it := live[sid]
 		switch act {
@@ -724,6 +728,20 @@ func zzInfo(sk *SpaceKeeper, sid string) string {
 		return ws.state.String()
 	}
 	return "absent"
+}
+
+// zzPublicView is what WorkSpaceInfos shows: the spaces in use and their states.
+func zzPublicView(sk *SpaceKeeper) string {
+	infos, err := sk.WorkSpaceInfos(engine.SFAll)
+	if err != nil {
+		return "error: " + err.Error()
+	}
+	var out []string
+	for _, in := range infos {
+		out = append(out, in.SpaceID[:6]+":"+in.State.String())
+	}
+	sort.Strings(out)
+	return strings.Join(out, " ")
 }
 
 func zzStates(sk *SpaceKeeper) []string {
@@ -947,6 +965,7 @@ func zzRunC15(r *sim.Run) {
 			r.Event("ConfigureBySize(%d = %.2f min) free=%d -> %d spaces err=%v created=%d", target, float64(target)/float64(min), free, len(infos), err, len(added)/2)
 			zzCheckSized(e, "BySize", []string{sk.dbDirs[0]}, []uint64{target}, infos, err, indexedBefore, pre, post, keyCtr, []int64{free})
 			if err == nil {
+				zzCheckViews(e, "ByFlags")
 				lastSel = zzSelOf(sk)
 			}
 		case 1: // ConfigureByPath
@@ -1000,6 +1019,7 @@ func zzRunC15(r *sim.Run) {
 			}
 			zzCheckSized(e, "ByPath", paths, tg, infos, err, ib, pre, post, keyCtr, frees)
 			if err == nil {
+				zzCheckViews(e, "ByFlags")
 				lastSel = zzSelOf(sk)
 			} else {
 				// a failed ConfigureByPath may have narrowed the keeper's directories; rebuild it
@@ -1035,6 +1055,7 @@ func zzRunC15(r *sim.Run) {
 					}
 				}
 				zzCheckNewFiles(e, "ByBitLength", []string{sk.dbDirs[0]}, pre, post, infos, indexedBefore)
+				zzCheckViews(e, "ByBitLength")
 				lastSel = zzSelOf(sk)
 			} else {
 				if total > 0 && len(added) > 0 && free >= 0 {
@@ -1060,6 +1081,7 @@ func zzRunC15(r *sim.Run) {
 				r.Fail("C15/files-created/ByFlags", "ConfigureByFlags created %v", added)
 			}
 			if err == nil {
+				zzCheckViews(e, "ByFlags")
 				lastSel = zzSelOf(sk)
 			}
 		case 4: // Remove a used space (stays indexed, may be reused)
@@ -1177,6 +1199,7 @@ func zzCheckSized(e *zzEnvK, name string, dirs []string, targets []uint64, infos
 	if len(sel) != len(infos) {
 		r.Fail("C15/result-list-mismatch/"+name, "the call returned %d spaces but %d are in use", len(infos), len(sel))
 	}
+	zzCheckViews(e, name)
 	for di, tg := range targets {
 		var total, reused uint64
 		created := 0
@@ -1237,6 +1260,39 @@ func zzCheckSized(e *zzEnvK, name string, dirs []string, targets []uint64, infos
 }
 
 // zzCheckNewFiles: each new space has exactly its two files, named (ordinal, key, bits) with the wallet's ordinal.
+// zzCheckViews: the selection as listed per directory (the API's by-directory report) is the
+// selection as listed flat, and a space outside it is refused by the actions.
+func zzCheckViews(e *zzEnvK, name string) {
+	r, sk := e.r, e.sk
+	flat := map[string]bool{}
+	for _, ws := range sk.workSpaceList {
+		flat[ws.id.String()] = true
+	}
+	_, res, err := sk.WorkSpaceInfosByDirs()
+	if err != nil {
+		return
+	}
+	byDir := map[string]bool{}
+	for _, infos := range res {
+		for _, in := range infos {
+			byDir[in.SpaceID] = true
+			if !flat[in.SpaceID] {
+				r.Fail("C15/deselected-space-still-in-use/"+name, "space %s is not part of the selection this call returned, but the by-directory listing still shows it", in.SpaceID[:8])
+			}
+		}
+	}
+	for sid := range flat {
+		if !byDir[sid] {
+			r.Fail("C15/selected-space-not-listed-by-dir/"+name, "selected space %s is missing from the by-directory listing", sid[:8])
+		}
+	}
+	for sid, ws := range sk.workSpaceIndex[allState].Items() {
+		if ws.using != flat[sid] {
+			r.Fail("C15/deselected-space-still-in-use/"+name, "space %s: selected=%v but in-use flag=%v", sid[:8], flat[sid], ws.using)
+		}
+	}
+}
+
 func zzCheckNewFiles(e *zzEnvK, name string, dirs []string, pre, post []string, infos []engine.WorkSpaceInfo, indexedBefore map[string]zzSel) {
 	r := e.r
 	_, added := zzDiffList(pre, post)
